@@ -1069,7 +1069,7 @@ pub fn run(opts: &Opts) -> Report {
         }
     }
     // values at the edges of their types
-    for (k, (name, v)) in [("datetime-before-year-0", "d:-63500000000000"), ("datetime-after-year-9999", "d:327400000000000"), ("datetime-offset-with-seconds", "d:1700000000000@19s32"), ("datetime-1899-new-york", "d:-2208988800000@-300"), ("largest-integer", "i:9223372036854775807"), ("smallest-integer", "i:-9223372036854775808"), ("float-zero", "f:0"), ("nested-list", "l:i:1|l:s:a|s:b")].iter().enumerate() {
+    for (k, (name, v)) in [("datetime-before-year-0", "d:-63500000000000"), ("datetime-after-year-9999", "d:327400000000000"), ("datetime-offset-with-seconds", "d:1700000000000@19s32"), ("datetime-1899-new-york", "d:-2208988800000@-300"), ("datetime-with-microseconds", "d:1417172409000n123000@60"), ("datetime-with-one-nanosecond", "d:1700000000000n1"), ("datetime-with-milliseconds", "d:1700000000250"), ("largest-integer", "i:9223372036854775807"), ("smallest-integer", "i:-9223372036854775808"), ("float-zero", "f:0"), ("nested-list", "l:i:1|l:s:a|s:b")].iter().enumerate() {
         let script: Vec<String> = vec!["st addres r0 9".into(), format!("st annot a0 T:r0:b0:b2 s0/k0/{}/d0", v), "st annot a1 A:a0 s0/k1/s:plain".into()];
         rep.count(&format!("edge-value:{}", name));
         let n0 = rep.failures.len();
